@@ -307,7 +307,14 @@ func runCheck(prop, tier string, seed int, timeout time.Duration, writeBaseline,
 						// code (tools/unreachable_ok.json says why); otherwise the assumptions on that path are
 						// contradictory and everything "proved" there is vacuous — an engine error, never a pass
 						if _, ok := unreachableOK()[o.Name]; !ok {
-							return engineFail(prop, "vacuity guard: %s — the return point is unreachable under the contracts (contradictory assumptions?); if it is dead code, list it in tools/unreachable_ok.json with the reason", o.Name)
+							// reported like a failed obligation: on the reference tree every return is reachable (or
+							// listed), so this is the current code disagreeing with its contract
+							nObl++
+							o.Text = "return point is reachable under the contracts (a refuted probe means: the assumptions on this path are contradictory, or the code can no longer return here)"
+							rp := writeReplay(replayDir, prop, fr.r, o)
+							violations = append(violations, fmt.Sprintf("VIOLATION property=%s replay=%s obligation=%s no-failing-input-found", prop, rp.Path, o.Name))
+							fe.Unproved++
+							continue
 						}
 						nUnreach++
 						unreachable = append(unreachable, o.Name)
